@@ -321,6 +321,98 @@ def cursor_rule(ctx):
     return obs
 
 
+def wave9_rules(ctx):
+    """obligations added after the ninth wave of seeded changes"""
+    import guards as gd
+    ob = ctx.ob
+    tc = ctx.tc
+    obs = []
+    # (1) child nodes that are parsed and then dropped (the element cannot hold children) are reported whenever there are any:
+    #     the report depends on the list being non-empty and on nothing else
+    k = 0
+    for f in tc.fns:
+        if not f.body or f.module[:2] != ["parse", "tag"]:
+            continue
+        G = None
+        for n in sir.walk(f.body):
+            if not (n.get("k") == "mcall" and n["m"] == "add_warning" and n["args"] and sir.expr_str(n["args"][0]).endswith("ChildNodesNotAllowed")):
+                continue
+            if G is None:
+                G = gd.guards_of(f.body)
+            gs = G.get(id(n), [])
+            # the innermost guard over a list of nodes
+            inner = None
+            for kind, subj, pol in reversed(gs):
+                e0 = sir.strip_ref(subj[0] if kind == "pat" else subj)
+                if e0.get("k") == "path" and len(e0["segs"]) == 1:
+                    # a local: read its initialiser
+                    nm0 = e0["segs"][0]
+                    for l in sir.walk(f.body):
+                        if l.get("k") == "local" and l["pat"].get("name") == nm0 and l.get("init") is not None:
+                            e0 = l["init"]
+                t = sir.expr_str(e0)
+                if "children" in t and "children_mut" not in t:
+                    inner = (kind, (e0,) if kind == "pat" else e0, pol, t)
+                    break
+            if inner is None:
+                continue
+            k += 1
+            kind, subj, pol, t = inner
+            chain = []
+            e = subj[0] if kind == "pat" else subj
+            for x in sir.walk(e):
+                if x.get("k") == "mcall":
+                    chain.append(x["m"])
+            narrowing = [m for m in chain if m in ("filter", "filter_map", "skip", "skip_while", "take_while", "nth", "and_then", "map_while", "then", "then_some")]
+            searching = [m for m in chain if m in ("find", "any", "position", "find_map", "all")]
+            verdict = False if narrowing else None if searching else True
+            obs.append(ob("C15.dropped-children/reported#%d" % k, verdict, ctx.where(f),
+                          "dropped children are reported under `%s`%s" % (t[:70], ": the first node is picked and then tested, a node the test turns down hides the rest" if narrowing else ": a search over the nodes, not decided" if searching else ""),
+                          witness=None if verdict is not False else "<include src=\"a\"><!-- c --><div/></include>: the div is dropped without a diagnostic"))
+    if k < 2:
+        obs.append(ob("C15.floor/dropped-children", False, "parse/tag.rs", "only %d reports of dropped child nodes found (floor 2)" % k))
+    # (2) the identifier alphabet of the expression parser is ECMAScript's (ASCII part): a name may start with a letter, `_` or `$`
+    #     and go on with those and digits; what is cut off an identifier is reported as an unexpected character
+    import absint as ai
+    import string
+    START = set(string.ascii_letters + "_$")
+    FOLLOW = START | set(string.digits)
+    tabs = 0
+    for f in tc.fns:
+        if not f.body or f.module[:2] != ["parse", "expr"] or (f.ret or "").strip() != "bool" or f.base:
+            continue
+        ps_ = [q for q in f.params if not q.get("self")]
+        if len(ps_) != 1 or (ps_[0].get("ty") or "").strip() != "char":
+            continue
+        pn = ps_[0].get("pat", {}).get("name")
+        acc, und = set(), False
+        for cp in range(0x20, 0x7f):
+            it = ai.Interp(idx=tc)
+            try:
+                outs = it.run(f.body, {pn: chr(cp)})
+            except ai.TooManyPaths:
+                outs = []
+            vs = set(o.value for o in outs)
+            if len(vs) != 1 or any(o.tainted for o in outs) or not (True in vs or False in vs):
+                und = True
+                break
+            if True in vs:
+                acc.add(chr(cp))
+        if und:
+            continue
+        if not ({"a", "_"} <= acc) or "." in acc or "-" in acc:
+            continue   # not an identifier table
+        tabs += 1
+        want = FOLLOW if "0" in acc else START
+        role = "following" if "0" in acc else "first"
+        miss, extra = sorted(want - acc), sorted(acc - want)
+        obs.append(ob("C15.ident/alphabet/%s" % f.name, not miss and not extra, ctx.where(f), "%s characters of an identifier: %s" % (role, "the ECMAScript ASCII set" if not miss and not extra else "missing %s, extra %s" % (miss, extra)),
+                      witness=None if not miss else "{{ item$id }} is cut after `item` and reported as an unexpected character"))
+    if tabs < 2:
+        obs.append(ob("C15.ident/alphabet", None, "parse/expr.rs", "only %d identifier tables read as functions of one character: not decided" % tabs))
+    return obs
+
+
 def wave8_rules(ctx):
     """obligations added after the eighth wave of seeded changes"""
     import guards as gd
@@ -393,6 +485,11 @@ def run(ctx):
     obs += dup_rule(ctx)
     obs += prefix_rule(ctx)
     obs += entity_rule(ctx)
+    # what the scanner accepts the decoder decodes: a reference the decoder turns down is reported at Error level (shared with C12)
+    from share import relabel
+    from rules.c12 import check_entities
+    obs += relabel(check_entities(ctx), "C12.entity", "C15.entity/decoder")
     obs += cursor_rule(ctx)
     obs += wave8_rules(ctx)
+    obs += wave9_rules(ctx)
     return obs
